@@ -81,6 +81,99 @@ def check_then_use(fn: ast.AST) -> List[Tuple[ast.AST, ast.AST]]:
     return out
 
 
+REGEX_API = ("compile", "sub", "subn", "match", "fullmatch", "search", "finditer", "findall", "split")
+
+
+def check_literal_text_in_patterns(ctx, d) -> None:
+    """A regular expression of dsl.py is a constant of the module, or - when it embeds text that exists only at run time (a reference, a
+    name) - wraps every such part in re.escape().  A reference text used as a pattern as it stands treats '.', '(', ')' and '%' of the
+    text as operators: '<entry-instance/gen/run-%(replica)s.log>' no longer matches itself, 'gen.a' also matches 'gen-a'."""
+    RID = "C06.R15-run-time-text-in-patterns-is-escaped"
+    module_consts = {t.id for st in d.tree.body if isinstance(st, ast.Assign) for t in st.targets if isinstance(t, ast.Name)}
+    n = 0
+
+    def verdict(e: ast.AST, fn, depth: int = 0) -> Optional[str]:
+        """None = fine; otherwise the offending part"""
+        if isinstance(e, ast.Constant):
+            return None
+        if isinstance(e, ast.Call) and call_name(e) == "re.escape":
+            return None
+        if isinstance(e, ast.Name):
+            params = {a.arg for a in fn.args.args + fn.args.kwonlyargs} if isinstance(fn, (ast.FunctionDef, ast.AsyncFunctionDef)) else set()
+            vals = match.assigned_value(fn, e.id) if fn is not None else []
+            if not vals:
+                return None if (e.id in module_consts or e.id in params) else None
+            if depth < 4:
+                for v in vals:
+                    r = verdict(v, fn, depth + 1)
+                    if r:
+                        return r
+            return None
+        if isinstance(e, ast.Attribute):
+            return None                       # a class/module level constant (cls.Pattern)
+        if isinstance(e, ast.JoinedStr):
+            for part in e.values:
+                if isinstance(part, ast.FormattedValue):
+                    r = verdict_runtime(part.value, fn, depth)
+                    if r:
+                        return r
+            return None
+        if isinstance(e, ast.BinOp) and isinstance(e.op, ast.Add):
+            return verdict_part(e.left, fn, depth) or verdict_part(e.right, fn, depth)
+        if isinstance(e, ast.BinOp) and isinstance(e.op, ast.Mod):
+            args = e.right.elts if isinstance(e.right, ast.Tuple) else [e.right]
+            for a in args:
+                r = verdict_runtime(a, fn, depth)
+                if r:
+                    return r
+            return verdict(e.left, fn, depth + 1)
+        if isinstance(e, ast.Call) and last_attr(e) in ("join", "format"):
+            for a in list(e.args) + [k.value for k in e.keywords]:
+                r = verdict_runtime(a, fn, depth)
+                if r:
+                    return r
+            return None
+        return None
+
+    def verdict_part(e, fn, depth):
+        return None if isinstance(e, ast.Constant) else (verdict(e, fn, depth + 1) if isinstance(e, (ast.BinOp, ast.JoinedStr)) else verdict_runtime(e, fn, depth))
+
+    def verdict_runtime(e: ast.AST, fn, depth: int) -> Optional[str]:
+        """a part spliced INTO a pattern: a constant, an escaped text, a module constant (a sub-pattern) - anything else is run-time text"""
+        if isinstance(e, ast.Constant) or (isinstance(e, ast.Call) and call_name(e) == "re.escape"):
+            return None
+        if isinstance(e, ast.Name) and e.id in module_consts and not (fn is not None and match.assigned_value(fn, e.id)):
+            return None
+        if isinstance(e, ast.Attribute) and isinstance(e.value, ast.Name) and e.value.id in ("cls", "self") and e.attr[:1].isupper():
+            return None
+        if isinstance(e, ast.Name) and fn is not None and depth < 4:
+            vals = match.assigned_value(fn, e.id)
+            if vals and all(verdict_runtime(v, fn, depth + 1) is None for v in vals):
+                return None
+        if isinstance(e, (ast.GeneratorExp, ast.ListComp)):
+            return verdict_runtime(e.elt, fn, depth)
+        return short(e, 40)
+    for q, f in sorted(d.functions.items()):
+        for c in source.calls_in(f, include_nested=False):
+            if not (isinstance(c.func, ast.Attribute) and c.func.attr in REGEX_API and isinstance(c.func.value, ast.Name) and c.func.value.id == "re" and c.args):
+                continue
+            n += 1
+            bad = verdict(c.args[0], f)
+            if bad is not None:
+                ctx.analysed(f)
+            ctx.ob(RID, c, bad is None,
+                   "the pattern is a constant, or its run-time parts are escaped" if bad is None else
+                   "%s uses %s inside the pattern of %s without re.escape(): characters of the text ('.', '(', ')', '%%', '[') act as regular-"
+                   "expression operators - a reference whose path holds %%(replica)s no longer matches itself and is left uncompiled in the "
+                   "command line, a step 'gen.a' also rewrites 'gen-a'" % (q, bad, short(c.func, 20)),
+                   construct="%s: %s(<pattern>)" % (q.split(".")[-1], source.src(c.func)), trivial=bad is None)
+    for st in d.tree.body:
+        for c in [x for x in ast.walk(st) if isinstance(x, ast.Call)] if not isinstance(st, (ast.FunctionDef, ast.ClassDef, ast.AsyncFunctionDef)) else []:
+            if isinstance(c.func, ast.Attribute) and c.func.attr in REGEX_API and isinstance(c.func.value, ast.Name) and c.func.value.id == "re" and c.args:
+                n += 1
+    ctx.floor(RID, n, 10, "calls of the re module in dsl.py")
+
+
 def check_split_full_prefix(ctx, d) -> None:
     """R6, full prefix: a scope becomes the candidate of split() only when ALL of its elements matched the reference."""
     sp = d.func("OutputReference.split")
@@ -480,6 +573,9 @@ def run(ctx) -> None:
              "instead of a DSLInvalidError that lists the location")
     ctx.rule("C06.R7-default-only-when-absent", "a parameter's declared default is stored only when the argument is absent (a membership "
              "test on the arguments of the scope): a supplied 0, '', {} or null is an argument, not a missing one")
+    ctx.rule("C06.R15-run-time-text-in-patterns-is-escaped", "every call of the re module in dsl.py takes a pattern that is a constant / a module constant / "
+             "a parameter, or an expression (f-string, %, +, join) whose non-constant parts are wrapped in re.escape() or are module-level "
+             "sub-patterns: text that exists only at run time is matched literally")
     ctx.rule("C06.R4-unique-names", "component names are numbered over the ordered components and every name is checked against the names already used")
     ctx.assume("implicit exceptions (KeyError, pydantic internals) are outside the model; FlowIRConcrete mutators called on the freshly built "
                "description are assumed not to raise except FlowIRComponentExists, which R4 excludes")
@@ -720,6 +816,7 @@ def run(ctx) -> None:
     check_first_element_access(ctx, d)
     check_substitution_traverses_dictionaries(ctx, d)
     check_split_full_prefix(ctx, d)
+    check_literal_text_in_patterns(ctx, d)
 
     # ---------------- R6 -------------------------------------------------------------------------------
     sp = d.func("OutputReference.split")
